@@ -236,7 +236,7 @@ def _map_to_station_ids(
     :return: the price data organized by StationId
     """
     updated = {}  # refactor using immutables.Map()?
-    for k in this_update.keys():
+    for k in sorted(this_update.keys()):
         if k in sim.stations:
             # k is a StationId; leave as is
             updated.update({k: this_update[k]})
@@ -257,7 +257,11 @@ def _map_to_station_ids(
                     station_id
                     for search_geoid in search_geoids
                     if sim.s_search.get(search_geoid)
-                    for station_id in sim.s_search[search_geoid]
+                    for station_id in sorted(sim.s_search[search_geoid])
+                    # a geoid finer than the search index names only the stations inside it,
+                    # not every station of the enclosing search cell
+                    if res <= sim.sim_h3_search_resolution
+                    or h3.h3_to_parent(sim.stations[station_id].geoid, res) == k
                 )
 
                 # all of these station ids should get entries managers the provided geoid
